@@ -15,7 +15,19 @@ def visitHook (e : Nat) (h : Hook) : Hook :=
 def callOf (e a : Nat) (h : Hook) : Option Call :=
   if h.ev != e || !h.attached then none
   else if exceeds h.max (h.count + 1) then none
-  else some ⟨h.handle, a, h.pooled⟩
+  else some ⟨.call, h.handle, a, h.pooled⟩
+
+/-- Everything visiting hook `h` appends to the log: the pre-trigger calls and the invocation. -/
+def entriesOf (evPre : Bool) (e a : Nat) (h : Hook) : List Call :=
+  match callOf e a h with
+  | some c => preCalls evPre e a h ++ [c]
+  | none => []
+
+theorem visitHook_pre (e : Nat) (h : Hook) : (visitHook e h).pre = h.pre := by
+  unfold visitHook
+  by_cases h1 : (h.ev != e || !h.attached) = true
+  · simp [h1]
+  · by_cases h2 : exceeds h.max (h.count + 1) = true <;> simp [h1, h2]
 
 theorem visitHook_fields (e : Nat) (h : Hook) :
     (visitHook e h).ev = h.ev ∧ (visitHook e h).handle = h.handle ∧ (visitHook e h).max = h.max ∧
@@ -31,7 +43,7 @@ theorem visitKey_nolink (trigRec : St → Nat → Nat → St × List Call) (e a 
     (k : Nat) (h : Hook) (hk : s.hooks[k]? = some h) (hl : h.link = none) :
     let r := visitKey trigRec e a (s, log) k
     r.1.hooks = s.hooks.set k (visitHook e h) ∧ r.1.evs = s.evs ∧ r.1.user = s.user ∧
-      r.2 = log ++ (callOf e a h).toList := by
+      r.2 = log ++ entriesOf (evPreOf s e) e a h := by
   have hself : s.hooks.set k h = s.hooks := by
     apply List.ext_getElem?
     intro j
@@ -47,10 +59,10 @@ theorem visitKey_nolink (trigRec : St → Nat → Nat → St × List Call) (e a 
     · simp [hj]
   simp only [visitKey, hk]
   by_cases h1 : (h.ev != e || !h.attached) = true
-  · simp [h1, visitHook, callOf, hself]
+  · simp [h1, visitHook, callOf, entriesOf, hself]
   · by_cases h2 : exceeds h.max (h.count + 1) = true
-    · simp [h1, h2, visitHook, callOf, setHook]
-    · simp [h1, h2, hl, visitHook, callOf, setHook]
+    · simp [h1, h2, visitHook, callOf, entriesOf, setHook]
+    · simp [h1, h2, hl, visitHook, callOf, entriesOf, setHook]
 
 theorem visitKey_none (trigRec : St → Nat → Nat → St × List Call) (e a : Nat) (acc : St × List Call)
     (k : Nat) (hk : acc.1.hooks[k]? = none) : visitKey trigRec e a acc k = acc := by
@@ -78,7 +90,7 @@ theorem fold_visit (trigRec : St → Nat → Nat → St × List Call) (e a : Nat
     let r := ks.foldl (visitKey trigRec e a) (s, log)
     r.1.evs = s.evs ∧ r.1.user = s.user ∧ r.1.hooks.length = s.hooks.length ∧
     (∀ j, r.1.hooks[j]? = if j ∈ ks then (s.hooks[j]?).map (visitHook e) else s.hooks[j]?) ∧
-    r.2 = log ++ ks.flatMap (perKey s.hooks (fun h => (callOf e a h).toList)) := by
+    r.2 = log ++ ks.flatMap (perKey s.hooks (entriesOf (evPreOf s e) e a)) := by
   induction ks generalizing s log with
   | nil => simp
   | cons k ks ih =>
@@ -113,6 +125,8 @@ theorem fold_visit (trigRec : St → Nat → Nat → St × List Call) (e a : Nat
         · simp [hkj] at hjs; subst hjs; rw [visitHook_link]; exact hnl k h hk
         · simp [hkj] at hjs; exact hnl j hj hjs
       obtain ⟨h1, h2, h3, h4, h5⟩ := ih hnd.2 s1 log1 hnl1
+      have hpre : evPreOf s1 e = evPreOf s e := by simp [evPreOf, v2]
+      rw [hpre] at h5
       refine ⟨by rw [h1, v2], by rw [h2, v3], by rw [h3, v1]; simp, ?_, ?_⟩
       · intro j
         rw [h4 j, hget j]
@@ -139,6 +153,11 @@ theorem range_flatMap_getElem {α β : Type} (l : List α) (f : α → List β) 
     simp only [perKey, List.getElem?_cons_zero, List.flatMap_cons]
     congr 1
 
+theorem getElem?_lt0 {α : Type} {l : List α} {k : Nat} {x : α} (h : l[k]? = some x) : k < l.length := by
+  rcases Nat.lt_or_ge k l.length with h' | h'
+  · exact h'
+  · rw [List.getElem?_eq_none h'] at h; cases h
+
 /-- `Trigger` on a state without link hooks: the event counter is bumped; if the limit is not
 exceeded every hook record is visited once, in key order. -/
 theorem trig_nolink (fuel : Nat) (s : St) (e a : Nat) (hnl : NoLinks s) (ev : Ev) (hev : s.evs[e]? = some ev) :
@@ -149,7 +168,7 @@ theorem trig_nolink (fuel : Nat) (s : St) (e a : Nat) (hnl : NoLinks s) (ev : Ev
     else
       r.1.evs = s.evs.set e { ev with count := ev.count + 1, passed := ev.passed + 1 } ∧
       (∀ j : Nat, r.1.hooks[j]? = (s.hooks[j]?).map (visitHook e)) ∧
-      r.2 = s.hooks.flatMap (fun h => (callOf e a h).toList) := by
+      r.2 = s.hooks.flatMap (entriesOf ev.pre e a) := by
   simp only [trig, hev]
   by_cases hx : exceeds ev.max (ev.count + 1) = true
   · simp [hx, setEv]
@@ -165,8 +184,12 @@ theorem trig_nolink (fuel : Nat) (s : St) (e a : Nat) (hnl : NoLinks s) (ev : Ev
       · have hn : s.hooks[j]? = none := List.getElem?_eq_none (by omega)
         simp [hj, setEv]
     · rw [h5]
+      have hlt := getElem?_lt0 hev
+      have hpre : evPreOf (setEv s e { ev with count := ev.count + 1, passed := ev.passed + 1 }) e = ev.pre := by
+        simp [evPreOf, setEv, hlt]
+      rw [hpre]
       simp only [List.nil_append, setEv]
-      exact range_flatMap_getElem s.hooks (fun h => (callOf e a h).toList)
+      exact range_flatMap_getElem s.hooks (entriesOf ev.pre e a)
 
 /-! ## histories without `LinkTo` -/
 
@@ -188,6 +211,7 @@ structure F (op : Op) (k : Nat) (hk hk' : Hook) : Prop where
   ev : hk'.ev = hk.ev
   max : hk'.max = hk.max
   pooled : hk'.pooled = hk.pooled
+  pre : hk'.pre = hk.pre
   handle : hk'.handle = hk.handle
   link : hk'.link = hk.link
   att_down : hk'.attached = true → hk.attached = true ∧ op ≠ .unhook k ∧ (¬ exceeded hk → ¬ exceeded hk')
@@ -195,7 +219,7 @@ structure F (op : Op) (k : Nat) (hk hk' : Hook) : Prop where
   exc : exceeded hk → exceeded hk'
 
 theorem F.same {op : Op} {k : Nat} (hk : Hook) (hne : op ≠ .unhook k) : F op k hk hk :=
-  ⟨rfl, rfl, rfl, rfl, rfl, fun h => ⟨h, hne, id⟩, fun h _ _ => h, id⟩
+  ⟨rfl, rfl, rfl, rfl, rfl, rfl, fun h => ⟨h, hne, id⟩, fun h _ _ => h, id⟩
 
 theorem F.visit (e a k : Nat) (hk : Hook) : F (.trigger e a) k hk (visitHook e hk) := by
   unfold visitHook
@@ -211,7 +235,7 @@ theorem F.visit (e a k : Nat) (hk : Hook) : F (.trigger e a) k hk (visitHook e h
       have hx : hk.max ≠ 0 ∧ hk.max < hk.count + 1 := by
         simp only [exceeds, Bool.and_eq_true, decide_eq_true_eq, bne_iff_ne, ne_eq] at h2
         exact ⟨h2.2, h2.1⟩
-      refine ⟨rfl, rfl, rfl, rfl, rfl, by simp, ?_, ?_⟩
+      refine ⟨rfl, rfl, rfl, rfl, rfl, rfl, by simp, ?_, ?_⟩
       · intro _ _ hne; exact absurd hx hne
       · intro _; exact hx
     · simp only [h2, Bool.false_eq_true, if_false]
@@ -219,21 +243,23 @@ theorem F.visit (e a k : Nat) (hk : Hook) : F (.trigger e a) k hk (visitHook e h
         intro hh; apply h2
         simp only [exceeds, Bool.and_eq_true, decide_eq_true_eq, bne_iff_ne, ne_eq]
         exact ⟨hh.2, hh.1⟩
-      refine ⟨rfl, rfl, rfl, rfl, rfl, ?_, ?_, ?_⟩
+      refine ⟨rfl, rfl, rfl, rfl, rfl, rfl, ?_, ?_, ?_⟩
       · intro _; exact ⟨hatt, by simp, fun _ => hx⟩
       · intro _ _ _; exact hatt
       · intro hh; exact absurd ⟨hh.1, Nat.lt_succ_of_lt hh.2⟩ hx
 
 theorem F.detach (k : Nat) (hk : Hook) : F (.unhook k) k hk { hk with attached := false } :=
-  ⟨rfl, rfl, rfl, rfl, rfl, by simp, fun _ h => absurd rfl h, id⟩
+  ⟨rfl, rfl, rfl, rfl, rfl, rfl, by simp, fun _ h => absurd rfl h, id⟩
 
 /-- Relation between the hook records before and after one operation that is not a `LinkTo`. -/
 structure HooksRel (op : Op) (s s' : St) : Prop where
   old : ∀ (k : Nat) (hk : Hook), s.hooks[k]? = some hk → ∃ hk', s'.hooks[k]? = some hk' ∧ F op k hk hk'
   new : ∀ (k : Nat) (hk' : Hook), s'.hooks[k]? = some hk' → s.hooks[k]? = none →
-    ∃ e m b, op = .hook e m b ∧ (step s op).2 = .hk k ∧
-      hk' = { ev := e, handle := k, link := none, max := m, count := 0, fired := 0, pooled := b, attached := true }
-  created : ∀ e m b k, op = .hook e m b → (step s op).2 = .hk k → s.hooks[k]? = none ∧ (s'.hooks[k]?).isSome = true
+    ∃ e m b p, op = .hook e m b p ∧ (step s op).2 = .hk k ∧
+      hk' = { ev := e, handle := k, link := none, max := m, count := 0, fired := 0, pooled := b, pre := p,
+              attached := true }
+  created : ∀ e m b p k, op = .hook e m b p → (step s op).2 = .hk k →
+    s.hooks[k]? = none ∧ (s'.hooks[k]?).isSome = true
 
 theorem getElem?_lt {α : Type} {l : List α} {k : Nat} {x : α} (h : l[k]? = some x) : k < l.length := by
   rcases Nat.lt_or_ge k l.length with h' | h'
@@ -251,9 +277,9 @@ theorem step_rel {s : St} (hs : NLInv s) (op : Op) (hop : op.isLink = false) :
     · intro k hk h; rw [hh] at h; exact hs.handle k hk h
     · intro k hk h; exact ⟨hk, by rw [hh]; exact h, F.same hk (hne k hk h)⟩
     · intro k hk' h hn; rw [hh, hn] at h; cases h
-    · intro e m b k _ h; exact absurd h (hnh k)
+    · intro e m b p k _ h; exact absurd h (hnh k)
   cases op with
-  | new m => exact same _ rfl rfl (by simp) (by simp [step])
+  | new m p => exact same _ rfl rfl (by simp) (by simp [step])
   | tcount e =>
     have hout : ∀ k, (step s (.tcount e)).2 ≠ .hk k := by
       intro k; simp only [step]; cases s.evs[e]? <;> simp
@@ -269,7 +295,7 @@ theorem step_rel {s : St} (hs : NLInv s) (op : Op) (hop : op.isLink = false) :
     cases s.user[h]? <;> exact same _ rfl rfl (by simp) hout
   | link a b => simp [Op.isLink] at hop
   | unlink a => simp [Op.isLink] at hop
-  | hook e m b =>
+  | hook e m b p =>
     simp only [step]
     by_cases he : e < s.evs.length
     · simp only [he, if_true]
@@ -305,12 +331,12 @@ theorem step_rel {s : St} (hs : NLInv s) (op : Op) (hop : op.isLink = false) :
           have := getElem?_lt h; simp at this; omega
         rw [h0] at h; simp at h
         have hk : k = s.hooks.length := by omega
-        refine ⟨e, m, b, rfl, ?_, ?_⟩
+        refine ⟨e, m, b, p, rfl, ?_, ?_⟩
         · simp [step, he, hul, hk]
         · rw [← h, hul, hk]
-      · intro e' m' b' k heq hout
+      · intro e' m' b' p' k heq hout
         simp only [Op.hook.injEq] at heq
-        obtain ⟨rfl, rfl, rfl⟩ := heq
+        obtain ⟨rfl, rfl, rfl, rfl⟩ := heq
         simp only [step, he, if_true, Out.hk.injEq] at hout
         subst hout
         rw [hul]
@@ -361,7 +387,7 @@ theorem step_rel {s : St} (hs : NLInv s) (op : Op) (hop : op.isLink = false) :
         have := getElem?_lt hh
         simp only [List.length_set] at this
         rw [List.getElem?_eq_getElem this] at hn; cases hn
-      · intro e m b k heq; cases heq
+      · intro e m b p k heq; cases heq
   | trigger e a =>
     simp only [step]
     by_cases he : e < s.evs.length
@@ -398,7 +424,7 @@ theorem step_rel {s : St} (hs : NLInv s) (op : Op) (hop : op.isLink = false) :
         have := getElem?_lt hh
         rw [t2] at this
         rw [List.getElem?_eq_getElem this] at hn; cases hn
-      · intro e' m b k heq; cases heq
+      · intro e' m b p k heq; cases heq
     · simp only [he, if_false]
       exact same s rfl rfl (by simp) (by simp [step, he])
 
@@ -437,38 +463,38 @@ theorem final_snoc (s : St) (pre : List Op) (op : Op) : final s (pre ++ [op]) = 
 /-- What the history says about the hook records (histories without `LinkTo`). -/
 structure HInv (pre : List Op) : Prop where
   nl : NLInv (final init pre)
-  tracked : ∀ (p1 : List Op) (e m : Nat) (b : Bool) (p2 : List Op) (k : Nat),
-    pre = p1 ++ .hook e m b :: p2 → (step (final init p1) (.hook e m b)).2 = .hk k →
-    ∃ hk, (final init pre).hooks[k]? = some hk ∧ hk.ev = e ∧ hk.max = m ∧ hk.pooled = b ∧
+  tracked : ∀ (p1 : List Op) (e m : Nat) (b p : Bool) (p2 : List Op) (k : Nat),
+    pre = p1 ++ .hook e m b p :: p2 → (step (final init p1) (.hook e m b p)).2 = .hk k →
+    ∃ hk, (final init pre).hooks[k]? = some hk ∧ hk.ev = e ∧ hk.max = m ∧ hk.pooled = b ∧ hk.pre = p ∧
       (hk.attached = true ↔ (∀ op ∈ p2, op ≠ .unhook k) ∧ ¬ exceeded hk)
   origin : ∀ (k : Nat) (hk : Hook), (final init pre).hooks[k]? = some hk →
-    ∃ p1 p2, pre = p1 ++ .hook hk.ev hk.max hk.pooled :: p2 ∧
-      (step (final init p1) (.hook hk.ev hk.max hk.pooled)).2 = .hk k
+    ∃ p1 p2, pre = p1 ++ .hook hk.ev hk.max hk.pooled hk.pre :: p2 ∧
+      (step (final init p1) (.hook hk.ev hk.max hk.pooled hk.pre)).2 = .hk k
 
 theorem hinv_nil : HInv [] := by
   refine ⟨⟨?_, rfl, ?_⟩, ?_, ?_⟩
   · intro k h hh; simp [final, init] at hh
   · intro k h hh; simp [final, init] at hh
-  · intro p1 e m b p2 k h; simp at h
+  · intro p1 e m b p p2 k h; simp at h
   · intro k hk hh; simp [final, init] at hh
 
 theorem hinv_snoc {pre : List Op} (h : HInv pre) (op : Op) (hop : op.isLink = false) : HInv (pre ++ [op]) := by
   obtain ⟨hnl', hrel⟩ := step_rel h.nl op hop
   refine ⟨by rw [final_snoc]; exact hnl', ?_, ?_⟩
-  · intro p1 e m b p2 k hdec hout
+  · intro p1 e m b p p2 k hdec hout
     rw [final_snoc]
     rcases snoc_eq_append_cons hdec with ⟨rfl, rfl, rfl⟩ | ⟨p2', rfl, hpre⟩
-    · obtain ⟨hnone, hsome⟩ := hrel.created e m b k rfl hout
+    · obtain ⟨hnone, hsome⟩ := hrel.created e m b p k rfl hout
       obtain ⟨hk', hhk'⟩ := Option.isSome_iff_exists.mp hsome
-      obtain ⟨e', m', b', heq, _, hrec⟩ := hrel.new k hk' hhk' hnone
+      obtain ⟨e', m', b', p', heq, _, hrec⟩ := hrel.new k hk' hhk' hnone
       simp only [Op.hook.injEq] at heq
-      obtain ⟨rfl, rfl, rfl⟩ := heq
-      refine ⟨hk', hhk', by rw [hrec], by rw [hrec], by rw [hrec], ?_⟩
+      obtain ⟨rfl, rfl, rfl, rfl⟩ := heq
+      refine ⟨hk', hhk', by rw [hrec], by rw [hrec], by rw [hrec], by rw [hrec], ?_⟩
       rw [hrec]
       simp [exceeded]
-    · obtain ⟨hk, hhk, h1, h2, h3, h4⟩ := h.tracked p1 e m b p2' k hpre hout
+    · obtain ⟨hk, hhk, h1, h2, h3, h3p, h4⟩ := h.tracked p1 e m b p p2' k hpre hout
       obtain ⟨hk', hhk', hf⟩ := hrel.old k hk hhk
-      refine ⟨hk', hhk', by rw [hf.ev, h1], by rw [hf.max, h2], by rw [hf.pooled, h3], ?_⟩
+      refine ⟨hk', hhk', by rw [hf.ev, h1], by rw [hf.max, h2], by rw [hf.pooled, h3], by rw [hf.pre, h3p], ?_⟩
       constructor
       · intro hatt
         obtain ⟨ha, hne, hex⟩ := hf.att_down hatt
@@ -487,7 +513,7 @@ theorem hinv_snoc {pre : List Op} (h : HInv pre) (op : Op) (hop : op.isLink = fa
     rw [final_snoc] at hhk'
     cases hold : (final init pre).hooks[k]? with
     | none =>
-      obtain ⟨e, m, b, heq, hout, hrec⟩ := hrel.new k hk' hhk' hold
+      obtain ⟨e, m, b, p, heq, hout, hrec⟩ := hrel.new k hk' hhk' hold
       subst heq
       refine ⟨pre, [], ?_, ?_⟩
       · rw [hrec]
@@ -497,8 +523,8 @@ theorem hinv_snoc {pre : List Op} (h : HInv pre) (op : Op) (hop : op.isLink = fa
       rw [hhk'] at hhk2; cases hhk2
       obtain ⟨p1, p2, hdec, hout⟩ := h.origin k hk hold
       refine ⟨p1, p2 ++ [op], ?_, ?_⟩
-      · rw [hf.ev, hf.max, hf.pooled, hdec]; simp
-      · rw [hf.ev, hf.max, hf.pooled]; exact hout
+      · rw [hf.ev, hf.max, hf.pooled, hf.pre, hdec]; simp
+      · rw [hf.ev, hf.max, hf.pooled, hf.pre]; exact hout
 
 theorem hinv_of_noLink (pre : List Op) (hnl : noLink pre) : HInv pre := by
   induction pre using snoc_induction with
